@@ -31,8 +31,8 @@ func init() {
 }
 
 type sleepyTransport struct {
-	lat []time.Duration
-	n   int
+	lat  []time.Duration
+	n    int
 	fail int // every fail-th request fails (0: never)
 }
 
